@@ -26,6 +26,10 @@ def classify(c):
     if c["property"] == "C09" and (job.get("cfg") or {}).get("backend") == "mock":
         # cloudsync/tests/fixtures/mock_storage.py is part of the (unedited) test suite
         return "G5-mockstorage-fixture"
+    if c["property"] == "C11" and kind == "pending-mismatch" and "scripts" not in job and c["sig"] == "set_oid":
+        # state level, depth 4: an entry whose only change flag sits on a side that has lost its id is put back into the
+        # pending set when the OTHER side is (re-)assigned an id (_change_oid adds on `either side changed`)
+        return "G17-pending-set-readmits-entry-whose-changed-side-has-no-id"
     ops = _ops(job)
     opts = job.get("opts") or {}
     if opts.get("resolver") == "merged_keep" and kind == "noquiesce":
@@ -96,7 +100,7 @@ def classify(c):
     if c["property"] in ("C07", "C10"):
         kinds = [op[0] for _, op in ops]
         paths = [op[1] for _, op in ops]
-        if kinds == ["write", "write"] and paths[0] == paths[1]:
+        if kinds in (["write", "write"], ["create", "write"]) and paths[0] == paths[1]:
             # die right after the engine uploaded v1 (not yet recorded); the user writes v2 while it is down: after the
             # restart both sides differ from the recorded hash -> treated as a two-sided conflict -> .conflicted artefact
             return "G6-crash-after-upload-then-newer-edit"
